@@ -1,6 +1,7 @@
 import NfpmModel.Wire
 import NfpmModel.Ar
 import NfpmModel.Tar
+import NfpmModel.Pax
 import NfpmModel.Cpio
 import NfpmModel.Spec.PlanSpec
 import NfpmModel.Spec.PayloadSpec
@@ -291,21 +292,24 @@ def handle (op : String) (args : List String) : Except String String :=
     match Ar.read b with
     | none => pure "malformed"
     | some ms => pure (s!"{ms.length}" ++ String.join (ms.map (fun m => s!" {hex m.name} {m.body.length}")))
-  -- byte-level tar stream of deb / ipk (GNU format, no extension headers): model writer and reader
+  -- byte-level tar stream (GNU / USTAR header flavours, PAX extension records): model writer and reader
   | "tarfile" => do
     let ms ← run1 (pList (do
       let fl ← tok
       let flavor ← (match fl with | "g" => pure Tar.Flavor.gnu | "u" => pure Tar.Flavor.ustar | t => throw s!"bad tar flavor {t}")
       let name ← pBytes; let mode ← pNat; let uid ← pNat; let gid ← pNat; let size ← pNat; let mtime ← pNat
-      let tf ← pNat; let linkname ← pBytes; let uname ← pBytes; let gname ← pBytes; let body ← pBytes
-      pure ({ hdr := { flavor, name, mode, uid, gid, size, mtime, typeflag := tf.toUInt8, linkname, uname, gname }, body } : Tar.Member))) args
-    pure (hex (Tar.archive ms))
+      let tf ← pNat; let linkname ← pBytes; let uname ← pBytes; let gname ← pBytes
+      let pax ← pList (do let k ← pBytes; let v ← pBytes; pure (k, v))
+      let body ← pBytes
+      pure ({ hdr := { flavor, name, mode, uid, gid, size, mtime, typeflag := tf.toUInt8, linkname, uname, gname }, pax, body } : Tar.PMember))) args
+    pure (hex (Tar.paxArchive ms))
   | "tarread" => do
     let b ← run1 pBytes args
-    match Tar.read b with
+    match Tar.paxRead b with
     | none => pure "malformed"
     | some ms => pure (s!"{ms.length}" ++ String.join (ms.map (fun m =>
-        s!" {match m.hdr.flavor with | .gnu => "g" | .ustar => "u"} {hex m.hdr.name} {m.hdr.mode} {m.hdr.uid} {m.hdr.gid} {m.hdr.size} {m.hdr.mtime} {m.hdr.typeflag.toNat} {hex m.hdr.linkname} {hex m.hdr.uname} {hex m.hdr.gname} {m.body.length}")))
+        s!" {match m.hdr.flavor with | .gnu => "g" | .ustar => "u"} {hex m.hdr.name} {m.hdr.mode} {m.hdr.uid} {m.hdr.gid} {m.hdr.size} {m.hdr.mtime} {m.hdr.typeflag.toNat} {hex m.hdr.linkname} {hex m.hdr.uname} {hex m.hdr.gname} {m.pax.length}"
+          ++ String.join (m.pax.map (fun r => s!" {hex r.1} {hex r.2}")) ++ s!" {m.body.length}")))
   -- byte-level cpio payload of rpm: model writer and reader
   | "cpiofile" => do
     let es ← run1 (pList (do
